@@ -128,6 +128,12 @@ class _ArmijoLineSearch:
                 alpha *= self.alpha_reduction
                 continue
 
+            # A non-finite trial norm is a failed evaluation, never an acceptable step
+            # (inf <= inf would otherwise pass the test below when current_norm is inf)
+            if not np.isfinite(norm_trial):
+                alpha *= self.alpha_reduction
+                continue
+
             # Check Armijo sufficient decrease condition
             if norm_trial <= (1.0 - self.armijo_c * alpha) * current_norm:
                 logger.debug(
